@@ -203,6 +203,12 @@ def finalize(out: Outcome):
     for f in out.failed:
         key = f['key']
         hit = next((k for k in known_keys if k == key or fnmatch.fnmatchcase(key, k)), None)
+        if hit is not None and known_keys[hit].get('witness_contains'):
+            # the finding is identified by its failing input: it only explains this failure when the
+            # witness found now is of that kind
+            wit0 = json.dumps((f.get('witness') or [{}])[0])
+            if not any(s in wit0 for s in known_keys[hit]['witness_contains']):
+                hit = None
         if hit is not None:
             out.known_hits.append(key)
             if hit not in announced:
